@@ -32,14 +32,14 @@
 #ifdef NET_SA_EXACT
 /* capacity of S fixed at NET_SA_EXACT records (functions that realloc S are proved per capacity) */
 #if NET_SA_EXACT == 0
-#define NET_ALLOC_S(ea, a) do { __CPROVER_assume((a) == 0); (ea)->buf = NULL; } while (0)
+#define NET_ALLOC_S(ea, a) do { __CPROVER_assume((a) == 0); (ea)->alloc = 0; (ea)->buf = NULL; } while (0)
 #else
 #define NET_ALLOC_S(ea, a) do { __CPROVER_assume((a) == NET_SA_EXACT * sizeof(struct socketrec)); \
-	(ea)->buf = malloc(NET_SA_EXACT * sizeof(struct socketrec)); __CPROVER_assume((ea)->buf != NULL); } while (0)
+	(ea)->alloc = NET_SA_EXACT * sizeof(struct socketrec); (ea)->buf = malloc(NET_SA_EXACT * sizeof(struct socketrec)); __CPROVER_assume((ea)->buf != NULL); } while (0)
 #endif
 #elif defined(NET_FIXCAP_S)
 #define NET_ALLOC_S(ea, a) do { __CPROVER_assume((a) == NS_Q * sizeof(struct socketrec)); \
-	(ea)->buf = malloc(NS_Q * sizeof(struct socketrec)); __CPROVER_assume((ea)->buf != NULL); } while (0)
+	(ea)->alloc = NS_Q * sizeof(struct socketrec); (ea)->buf = malloc(NS_Q * sizeof(struct socketrec)); __CPROVER_assume((ea)->buf != NULL); } while (0)
 #else
 #define NET_ALLOC_S(ea, a) do { if ((a) == 0) (ea)->buf = NULL; \
 	else { (ea)->buf = malloc(a); __CPROVER_assume((ea)->buf != NULL); } } while (0)
@@ -47,13 +47,13 @@
 #ifdef NET_FA_EXACT
 /* capacity of fds fixed at the (matrix) value NET_FA_EXACT: the functions that realloc fds are proved per capacity */
 #if NET_FA_EXACT == 0
-#define NET_ALLOC_F(a) do { __CPROVER_assume((a) == 0); fds = NULL; } while (0)
+#define NET_ALLOC_F(a) do { __CPROVER_assume((a) == 0); fds_alloc = 0; fds = NULL; } while (0)
 #else
-#define NET_ALLOC_F(a) do { __CPROVER_assume((a) == NET_FA_EXACT); \
+#define NET_ALLOC_F(a) do { __CPROVER_assume((a) == NET_FA_EXACT); fds_alloc = NET_FA_EXACT; \
 	fds = malloc(NET_FA_EXACT * sizeof(struct pollfd)); __CPROVER_assume(fds != NULL); } while (0)
 #endif
 #elif defined(NET_FIXCAP_F)
-#define NET_ALLOC_F(a) do { __CPROVER_assume((a) == NF_A); \
+#define NET_ALLOC_F(a) do { __CPROVER_assume((a) == NF_A); fds_alloc = NF_A; \
 	fds = malloc(NF_A * sizeof(struct pollfd)); __CPROVER_assume(fds != NULL); } while (0)
 #else
 #define NET_ALLOC_F(a) do { if ((a) == 0) fds = NULL; \
